@@ -220,8 +220,11 @@ fn check(list: &[ds::Horizontal], widths: &[i32], tol: i32, params: &Params, sta
     }
 }
 
-#[test]
-fn optimal_breaks() {
+#[test] fn optimal_breaks_0() { optimal_breaks(0, 4); }
+#[test] fn optimal_breaks_1() { optimal_breaks(1, 4); }
+#[test] fn optimal_breaks_2() { optimal_breaks(2, 4); }
+#[test] fn optimal_breaks_3() { optimal_breaks(3, 4); }
+fn optimal_breaks(part: usize, parts: usize) {
     std::panic::set_hook(Box::new(|_| {}));
     let thorough = std::env::var("VERIF_TIER").map(|t| t == "thorough").unwrap_or(false);
     let params = Params::plain_tex_defaults();
@@ -261,15 +264,16 @@ fn optimal_breaks() {
     ];
     let boxes = [2, 3, 5];
     let mut stats = [0u64; 4];
-    let max_words = if thorough { 5 } else { 4 };
+    let max_words = 5;
     for n in 1..=max_words {
         // every assignment of box widths and separators (separator index n-1 unused)
         let nb = boxes.len().pow(n as u32);
         let ns = seps.len().pow(n as u32 - 1);
         for bi in 0..nb { for si in 0..ns {
+            if (bi + 3 * si) % parts != part { continue; }
             // thin the larger spaces (quick: 4 boxes 1 in 5; thorough: 5 boxes 1 in 37)
-            if !thorough && n == 4 && (bi * 7 + si) % 11 != 0 { continue; }
-            if n == 5 && (bi * 7 + si) % 37 != 0 { continue; }
+            if !thorough && n == 4 && (bi * 7 + si) % 5 != 0 { continue; }
+            if n == 5 && (bi * 7 + si) % (if thorough { 37 } else { 1201 }) != 0 { continue; }
             let mut list = vec![];
             let (mut b, mut s) = (bi, si);
             for k in 0..n {
@@ -285,7 +289,8 @@ fn optimal_breaks() {
                 let mut list = list.clone();
                 list.push(pen(10000));
                 list.push(if finite_end { glue(0, 3, GlueOrder::Normal, 0) } else { glue(0, 1, GlueOrder::Fil, 0) });
-                for widths in [&[6][..], &[8][..], &[5, 9][..], &[11][..]] { for tol in [200, 10000, 20000] {
+                // (one, two and three different line widths; the last one repeats)
+                for widths in [&[6][..], &[8][..], &[5, 9][..], &[11][..], &[4, 7, 10][..], &[9, 5, 7][..]] { for tol in [200, 10000, 20000] {
                     for p in [&params, &params2] {
                         if !check(&list, widths, tol, p, &mut stats) { return; }
                     }
